@@ -137,6 +137,14 @@ def check_all(tr, jumps, states, labels_site, M, n_atoms, T, dt, temp, info, dim
     if not isinstance(r, Raised):
         parts = gcall(jumps.split, n_parts)
         pc = [gcall(p.counter) for p in parts]
+        # the same parts obtained independently: split the transitions, classify each part on its own
+        from gemdat.jumps import Jumps as _J
+
+        own = [gcall(_J, p, minimal_residence=jumps.minimal_residence, allow=(ValueError,)) for p in gcall(tr.split, n_parts)]
+        if not any(isinstance(o, Raised) for o in own):
+            for k_, (a_, b_) in enumerate(zip(pc, own)):
+                if dict(a_) != dict(gcall(b_.counter)):
+                    raise Violation('rates-parts-belong-to-this-object', f'part {k_} of {n_parts} behind rates()/split() counts {dict(a_)}, the same time part of these transitions classified on its own gives {dict(gcall(b_.counter))}')
         denom = n_atoms * total_time / n_parts
         pairs = [(a, b) for a in labels_site for b in labels_site]
         for pair in set(pairs):
